@@ -425,6 +425,7 @@ def run(pid, tier):
         # are all known to be Send + Sync, rustc must accept is_send / is_sync of the record type
         GOOD = {"u8", "u16", "u32", "u64", "[u8;3]", "kgen_types::P12", "kgen_types::P24", "kgen_types::Zst", "kgen_types::Over16", "kgen_types::Tracked",
                 "kgen_types::TrackedBox", "kgen_types::ZstDrop", "[u64;0]", "Option<u32>", "Box<str>", "std::sync::Mutex<std::cell::Cell<u32>>", "fn(*constu8,usize)->usize"}
+        SEND_ONLY = {"kgen_types::NotSync"}      # Send but not Sync (holds a Cell)
         probed = 0
         for n in names:
             facts = json.load(open(os.path.join(OUT, n + ".json")))
@@ -433,8 +434,11 @@ def run(pid, tier):
             by_id = {d["id"]: d for d in facts["data"]}
             lines = []
             for vi, ids in enumerate(facts["variants"]):
+                # per trait: a record whose field types are all Send (some of them not Sync, e.g. a Cell) must still be Send
+                if all(norm(by_id[i]["type"]) in GOOD or norm(by_id[i]["type"]) in SEND_ONLY for i in ids):
+                    lines.append("is_send::<m::Record%d>(); is_send::<m::CappedRecord%d<200>>();" % (vi, vi))
                 if all(norm(by_id[i]["type"]) in GOOD for i in ids):
-                    lines.append("is_send::<m::Record%d>(); is_sync::<m::Record%d>(); is_send::<m::CappedRecord%d<200>>(); is_sync::<m::CappedRecord%d<200>>();" % (vi, vi, vi, vi))
+                    lines.append("is_sync::<m::Record%d>(); is_sync::<m::CappedRecord%d<200>>();" % (vi, vi))
             if not lines:
                 continue
             acc, diag = compile_module(n, os.path.join(OUT, n + ".rs"), probe_tpl % " ".join(lines))
@@ -443,7 +447,7 @@ def run(pid, tier):
             if not acc:
                 path = os.path.join(rdir, "%s-converse.rs" % n)
                 sh(["cp", os.path.join(OUT, n + ".rs"), path])
-                v.violation(path, "C14: a record of definition `%s` whose field types are all Send + Sync is not Send + Sync itself: %s" % (n, diag))
+                v.violation(path, "C14: a record of definition `%s` whose field types are all Send (resp. all Sync) is not Send (resp. Sync) itself: %s" % (n, diag))
                 break
         if if_sat and not v.violations:
             v.note("note: the converse query is satisfiable in the model (%d cases, unknown type leaves) but rustc accepts all %d probes" % (len(if_sat), probed))
